@@ -85,25 +85,25 @@ func init() {
 		Doc: "bracketed attributes bypass the filter and are unwrapped: shouldIgnoreAttr returns false for a bracketed key before consulting the table, and renderAttrs emits the key with exactly its first and last byte removed",
 		Run: func(p *Prog, c *Ctx) {
 			ign := p.MustFn("vuego.shouldIgnoreAttr")
-			// first call in the function is isLiteralAttr on the parameter, and its true edge returns false
-			okFirst := false
-			for _, site := range callsIn(ign) {
-				if calleeName(site.Common()) == "vuego.isLiteralAttr" {
-					if cv, ok := site.(*ssa.Call); ok {
-						if refs := cv.Referrers(); refs != nil {
-							for _, r := range *refs {
-								if ifi, ok := r.(*ssa.If); ok {
-									t := ifi.Block().Succs[0]
-									if ret, ok := t.Instrs[len(t.Instrs)-1].(*ssa.Return); ok {
-										if cst, ok := ret.Results[0].(*ssa.Const); ok && cst.Value != nil && cst.Value.String() == "false" {
-											okFirst = site.Block() == ign.Blocks[0]
-										}
-									}
-								}
-							}
-						}
+			// every way of returning something other than the constant false arises only when isLiteralAttr(key) is false
+			okFirst := len(ign.Params) == 1
+			nAlt := 0
+			for _, ret := range returnsOf(ign) {
+				for _, alt := range alternatives(ret.Results[0], ret.Block()) {
+					if cst, ok := alt.V.(*ssa.Const); ok && cst.Value != nil && cst.Value.String() == "false" {
+						continue
+					}
+					nAlt++
+					if !alt.holdsFor(func(cnd ssa.Value, want bool) bool {
+						cl := isCallNamed(cnd, "vuego.isLiteralAttr")
+						return cl != nil && !want && len(ign.Params) == 1 && cl.Call.Args[0] == ign.Params[0]
+					}) {
+						okFirst = false
 					}
 				}
+			}
+			if nAlt == 0 {
+				okFirst = false
 			}
 			c.check(okFirst, "shouldIgnoreAttr: literal attributes are never ignored", p.pos(ign.Pos()), "isLiteralAttr(key) → false is tested first", "a bracketed [attr] can be filtered like a directive: shouldIgnoreAttr does not return false for literal attributes before consulting the table")
 			ra := p.MustFn("vuego.renderAttrs")
@@ -365,42 +365,18 @@ func init() {
 						statOK = true
 					}
 				}
-				// the hit block is entered from the edges of a short-circuit condition: each entering edge must be
-				// `stored.Equal(current)` being true or the documented `current.IsZero()` being true
-				eq = true
-				var entering func(b *ssa.BasicBlock, depth int)
-				seenB := map[*ssa.BasicBlock]bool{}
-				entering = func(b *ssa.BasicBlock, depth int) {
-					if seenB[b] || depth > 4 {
-						return
+				// every path to the hit crosses `stored.Equal(current)` being true or the documented `current.IsZero()` being true
+				eq = everyPathCrosses(r.Block(), func(cnd ssa.Value, want bool) bool {
+					cl, isCall := cnd.(*ssa.Call)
+					if !isCall || !want {
+						return false
 					}
-					seenB[b] = true
-					for _, pr := range b.Preds {
-						ifi, ok := pr.Instrs[len(pr.Instrs)-1].(*ssa.If)
-						if !ok {
-							entering(pr, depth+1)
-							continue
-						}
-						want := pr.Succs[0] == b
-						cnd, flip := stripNot(ifi.Cond)
-						if flip {
-							want = !want
-						}
-						cl, isCall := cnd.(*ssa.Call)
-						switch {
-						case isCall && calleeName(&cl.Call) == "(time.Time).Equal" && want:
-						case isCall && calleeName(&cl.Call) == "(time.Time).IsZero" && want:
-						default:
-							eq = false
-							if isCall {
-								after = calleeName(&cl.Call)
-							} else {
-								after = "a condition that is not an mtime equality"
-							}
-						}
-					}
+					n := calleeName(&cl.Call)
+					return n == "(time.Time).Equal" || n == "(time.Time).IsZero"
+				})
+				if !eq {
+					after = "there is a path to the hit that passes no mtime equality"
 				}
-				entering(r.Block(), 0)
 				c.check(eq && after == "", fmt.Sprintf("cache hit#%d validated by mtime equality", n), p.instrPos(r), "Time.Equal(stored, current)", "the cache hit is not decided by equality of the stored and the current mtime ("+after+"): a file replaced by an older version keeps rendering the cached content")
 				c.check(statOK, fmt.Sprintf("cache hit#%d requires a successful Stat", n), p.instrPos(r), "a failed Stat is a miss", "a failed Stat can still lead to a cache hit: a deleted or unreadable file keeps being served")
 			}
@@ -862,7 +838,13 @@ func init() {
 		Doc: "delimiter handling keeps the rest of the value: wherever a declaration or pair is split at a constant `:` the split happens at the first colon only (strings.SplitN(x, \":\", 2), strings.Cut or strings.Index + slicing) so that values containing a colon (url(https://…), data: URIs, times) survive; wherever the closing `}}` of a mustache is searched, the first occurrence is taken (strings.Index), never the last",
 		Run: func(p *Prog, c *Ctx) {
 			n := 0
+			// only where declarations / pairs / mustaches are parsed: the attribute and v-show handlers, the
+			// interpolator and the formatter's text escaper, with their helpers (a `host:port` split elsewhere is not this rule's business)
+			scope := p.Cone(p.MustFn("(*vuego.Vue).evalAttributes"), p.MustFn("(*vuego.Vue).evalVShow"), p.MustFn("(*vuego.Vue).interpolate"), p.MustFn("formatter.escapeText"), p.MustFn("(*formatter.Formatter).renderOpenTag"))
 			for _, fn := range p.Funcs {
+				if !scope[fn] {
+					continue
+				}
 				for _, site := range callsIn(fn) {
 					cc := site.Common()
 					nm := calleeName(cc)
